@@ -714,8 +714,11 @@ step(int allow_dev, unsigned max_timer_ms) {
       vx_observe("   (operation while %d datagrams are in flight)", nf);
     /* environment answer: the socket refuses the next transmission once (ENOBUFS) - after a change that is the notification,
      * which libcoap has to try again ("the last state is always eventually notified") */
-    if ((C->ops[pos].kind == OP_CHG || C->ops[pos].kind == OP_CHG3) && budget > 0 && nf == 0 &&
-        !err_armed[C->ops[pos].r] /* (an error response that deregisters is known to the model from the wire only) */ &&
+    int refusal_ok = C->mode == M_CON; /* (the every-sixth-Confirmable count is kept by attempts, the model counts the wire) */
+    for (int k = 0; k < C->nops && refusal_ok; k++)
+      if (C->ops[k].kind == OP_ERR)
+        refusal_ok = 0; /* (an error response that deregisters is known to the model from the wire only) */
+    if ((C->ops[pos].kind == OP_CHG || C->ops[pos].kind == OP_CHG3) && budget > 0 && nf == 0 && refusal_ok &&
         vx_choose(2, NULL, "socket-refuses") == 1) {
       vx_observe("   (the socket will refuse the next transmission)");
       ns_send_fail_next = 1;
@@ -1194,7 +1197,7 @@ main(int argc, char **argv) {
     fprintf(stderr, "%s\n", famdesc);
     return 0;
   }
-  vx_ev_rule("(deviations include: the socket refuses the first transmission after a change once) executions of a real libcoap server (observable r1 single-block, r2 40-byte body in 16-byte Block2 blocks; resource modes "
+  vx_ev_rule("(deviations include, for all-Confirmable resources and scripts without an error response: the socket refuses the first transmission after a change once) executions of a real libcoap server (observable r1 single-block, r2 40-byte body in 16-byte Block2 blocks; resource modes "
              "default / NOTIFY_CON / NOTIFY_NON_ALWAYS) observed by raw observers c1,c2 (and by a real libcoap client in the lc family); "
              "enumerated: every well-formed operation sequence over {reg, rereg, cancel (c,r,q), chg, chg3, err, del (r), rst, close, sil (c)} "
              "up to the family's depth (ill-formed ones such as cancel before reg pruned, raw observers interchangeable), each under all "
